@@ -82,6 +82,15 @@ func Run(mod *ir.Module, fn *ir.Function) {
 	localPtrs := buildLocalPtrMap(fn)
 	unmarkDeadControlFlow(fn, fn.Body, deadLocals, live, localPtrs)
 
+	// Phase 2d: unmarkExpr looks for other consumers among expressions
+	// only. An expression that feeds a dead condition and is also used
+	// directly by a surviving statement (a switch selector, a stored
+	// value, a call argument) has been unmarked above; mark the
+	// operands of surviving statements again.
+	remarkSurvivingRoots(mod, fn, fn.Body, deadLocals, live, localPtrs, mark)
+	markLiveLocalStoreValues(fn, live, deadLocals)
+	propagateCallResultLiveness(fn.Body, live, mark)
+
 	// Phase 3: sweep dead statements and shrink emit ranges.
 	// Even when no dead locals exist, the sweep still shrinks emit ranges
 	// for dead expressions. Without this, shaders that compute into
@@ -428,6 +437,49 @@ func unmarkDeadControlFlow(
 
 		case ir.StmtBlock:
 			unmarkDeadControlFlow(fn, sk.Block, deadLocals, live, localPtrs)
+		}
+	}
+}
+
+// remarkSurvivingRoots marks the operands of every statement that the
+// sweep phase will keep. Conditions and selectors of control flow that
+// stmtSurvivesSweep predicts to be removed stay unmarked.
+func remarkSurvivingRoots(
+	mod *ir.Module,
+	fn *ir.Function,
+	block ir.Block,
+	deadLocals map[uint32]bool,
+	live []bool,
+	localPtrs map[ir.ExpressionHandle]uint32,
+	mark func(ir.ExpressionHandle),
+) {
+	for i := range block {
+		switch sk := block[i].Kind.(type) {
+		case ir.StmtIf:
+			if !stmtSurvivesSweep(fn, sk, deadLocals, live, localPtrs) {
+				continue
+			}
+			mark(sk.Condition)
+			remarkSurvivingRoots(mod, fn, sk.Accept, deadLocals, live, localPtrs, mark)
+			remarkSurvivingRoots(mod, fn, sk.Reject, deadLocals, live, localPtrs, mark)
+		case ir.StmtSwitch:
+			if !stmtSurvivesSweep(fn, sk, deadLocals, live, localPtrs) {
+				continue
+			}
+			mark(sk.Selector)
+			for ci := range sk.Cases {
+				remarkSurvivingRoots(mod, fn, sk.Cases[ci].Body, deadLocals, live, localPtrs, mark)
+			}
+		case ir.StmtLoop:
+			remarkSurvivingRoots(mod, fn, sk.Body, deadLocals, live, localPtrs, mark)
+			remarkSurvivingRoots(mod, fn, sk.Continuing, deadLocals, live, localPtrs, mark)
+			if sk.BreakIf != nil {
+				mark(*sk.BreakIf)
+			}
+		case ir.StmtBlock:
+			remarkSurvivingRoots(mod, fn, sk.Block, deadLocals, live, localPtrs, mark)
+		default:
+			markStmtRoots(mod, fn, block[i].Kind, localPtrs, mark)
 		}
 	}
 }
